@@ -148,6 +148,56 @@ def allCalls (m : Choices) (r : Reaction) : List DynCall :=
     t.chains.flatMap (fun ch =>
       (r.tree ch.topo).infosSorted.filterMap (fun ni => nodeDyn m r ch.states t.inters ni)))))
 
+/-! ### the chain amplitude as a product (both coefficient modes, all naming flags)
+
+`__formulate_sequential_decay` / `_formulate_partial_decay`: a chain amplitude is
+  (amplitude-coefficient mode)  C_{sequential suffix} · Π_nodes  D(φ,θ) · dynamics(node)
+  (helicity-coupling mode)                              Π_nodes  H_{decay suffix} · D(φ,θ) · dynamics(node)
+(the canonical builder multiplies Clebsch-Gordan factors per node, the parity prefactor is C03).  The
+dynamics factor of a node is the SAME call in both modes; alignment, stable final-state ids and the scalar
+initial-state mass do not enter a chain amplitude at all (`Config` fields that `chainSkel` never reads). -/
+
+structure NodeSkel where
+  /-- `H_{…}` of `__generate_helicity_coupling` (coupling mode only) -/
+  coupling : Option Name
+  /-- angles of the Wigner-D function of the node (helicity child) -/
+  phi : Name
+  theta : Name
+  /-- `__formulate_dynamics`: `none` = factor 1 because the decay is not a key of the selector -/
+  dyn : Option DynCall
+deriving Repr, DecidableEq
+
+structure ChainSkel where
+  /-- `C_{…}` of `__generate_amplitude_coefficient` (amplitude-coefficient mode only) -/
+  coef : Option Name
+  nodes : List NodeSkel
+deriving Repr, DecidableEq
+
+def nodeSkel (cfg : Config) (m : Choices) (r : Reaction) (ss : List State) (is : List Inter) (ni : NodeInfo) : NodeSkel :=
+  { coupling := if cfg.helicityCouplings then some (couplingName (decaySuffix ⟨r, cfg⟩ ss is ni)) else none,
+    phi := phiSym ni.c1 ni.anc, theta := thetaSym ni.c1 ni.anc,
+    dyn := nodeDyn m r ss is ni }
+
+/-- `pm` = naming.parity_partner_coefficient_mapping (`parityMapping ⟨r, cfg⟩`) -/
+def chainSkel (cfg : Config) (m : Choices) (r : Reaction) (pm : List (Name × Name)) (t : Transition) (ch : Chain) : ChainSkel :=
+  let tree := r.tree ch.topo
+  { coef := if cfg.helicityCouplings then none
+            else some (coefficientName (sequentialSuffix ⟨r, cfg⟩ pm tree ch.states t.inters)),
+    nodes := tree.infosSorted.map (nodeSkel cfg m r ch.states t.inters) }
+
+/-- the dynamics factors that are multiplied INTO the chain amplitude (builder 0 = `create_non_dynamic` = 1) -/
+def ChainSkel.dynFactors (s : ChainSkel) : List DynCall := s.nodes.filterMap (·.dyn)
+
+def enumFrom {α} : Nat → List α → List (Nat × α)
+  | _, [] => []
+  | k, x :: xs => (k, x) :: enumFrom (k + 1) xs
+
+/-- (transition index, chain index) ↦ skeleton of that chain amplitude -/
+def allSkels (cfg : Config) (m : Choices) (r : Reaction) : List (Nat × Nat × ChainSkel) :=
+  let pm := parityMapping ⟨r, cfg⟩
+  (enumFrom 0 r.transitions).flatMap (fun kt =>
+    (enumFrom 0 kt.2.chains).map (fun jc => (kt.1, jc.1, chainSkel cfg m r pm kt.2 jc.2)))
+
 /-! ### parameter defaults -/
 
 /-- values are opaque tokens (bit patterns of the real part; never compared as floats) -/
@@ -181,5 +231,30 @@ def kindOfId : BuilderId → Kind
 
 def callWrites (one : Val) (r : Reaction) (pinfo : Nat → PInfo) (calls : List DynCall) : List (Name × Val) :=
   calls.flatMap (fun c => builderDefaults one (kindOfId c.builder) (r.particle c.parent) (pinfo c.parent))
+
+/-- is the amplitude symbol this chain is added to (`base[helicities]`, base of the transition's topology group,
+helicities of the chain) one the intensity sums over?  (Reactions with partial helicity sets and identical
+particles can have swapped chains whose helicity tuple is outside the summation pools: C01 territory.) -/
+def chainReferenced (rf : List AmpKey) (r : Reaction) (t : Transition) (ch : Chain) : Bool :=
+  rf.contains (ampBase (r.tree t.topo), chainHel r ch)
+
+/-- two topology groups whose amplitude base NAME coincides although the topologies differ (isomorphic topologies
+with other node ids, e.g. in synthetic four-body reactions): `amplitudes[base[helicities]] = …` of the later group
+overwrites the earlier one.  Which amplitude survives is C01's subject; the C13 clause on `model.expression` is
+stated for reactions without such a collision. -/
+def baseCollision (r : Reaction) : Bool :=
+  r.transitions.any (fun t => r.transitions.any (fun t' =>
+    decide (r.tree t.topo ≠ r.tree t'.topo) && decide (ampBase (r.tree t.topo) = ampBase (r.tree t'.topo))))
+
+/-- the dynamics parameters that must occur in `model.expression`: every parameter returned by a builder call is
+a factor of the chain amplitude it was called for, so it occurs in the expression as soon as the intensity
+refers to that chain's amplitude symbol -/
+def dynParamsInExpression (cfg : Config) (m : Choices) (r : Reaction) : List Name :=
+  let pm := parityMapping ⟨r, cfg⟩
+  let rf := refs ⟨.refs, true, true, true⟩ r cfg
+  r.transitions.flatMap (fun t => t.chains.flatMap (fun ch =>
+    if chainReferenced rf r t ch then
+      (chainSkel cfg m r pm t ch).dynFactors.flatMap (fun c => (kindOfId c.builder).params (r.particle c.parent))
+    else []))
 
 end Ampverif.Model.C13
